@@ -22,16 +22,95 @@ class Check(PropertyCheck):
             "same world as the same history without the injections; all of it compared with the statement-level Lean model; "
             "non-trivial = >=3 accepted dispatches and >=3 rejected requests of >=2 kinds")
     ASSUMPTIONS = ["instances are valid",
-                   "negative job ids (Python index wrap-around) are outside the action space and the property"]
+                   "every fourth scenario drives SingleJobShopGraphEnv.step instead of Dispatcher.dispatch (rejected steps of five kinds between valid steps for other jobs; observation and schedule before/after; twin episode without the rejected steps)", "negative job ids (Python index wrap-around) are outside the action space and the property"]
     QUICK_N = 200
 
     def make_impl(self, scenario):
-        from impl_ext import ImplWorld
-        return ImplWorld(scenario.meta.get("filter_style", "callable"))
+        from impl_ext import ImplEnv
+        return ImplEnv(scenario.meta.get("filter_style", "callable"))
 
     def generate(self, rng, n, tier):
-        for _ in range(n):
-            yield self.scenario(rng, tier)
+        for i in range(n):
+            yield self.env_scenario(rng) if i % 4 == 3 else self.scenario(rng, tier)
+
+    def env_scenario(self, rng: random.Random) -> Scenario:
+        """The environment clause: rejected steps (finished job, ineligible / out-of-range machine, -1 on a flexible
+        operation) between valid steps for OTHER jobs."""
+        family, jobs = gen.gen_instance(rng, max_jobs=4, max_ops=3)
+        f = gen.gen_filter(rng)
+        b = rng.choice(["disjunctive", "agent_task", "agent_task_jobs", "complete_agent_task"])
+        lines = ["new", instance_line(jobs), gen.filter_line(f),
+                 f"env {b} 1 1 {rng.choice(['makespan', 'idle'])} 1 ; is_ready - ; duration -", "eobs"]
+        tr = gen.Tracker(jobs)
+        M = slices.num_machines_of(jobs)
+        n_bad = n_acc = 0
+        kinds = set()
+        while not tr.done():
+            if rng.random() < 0.6:
+                ready = tr.ready()
+                j, p = rng.choice(ready)
+                ms, _ = jobs[j][p]
+                finished = [k for k in range(len(jobs)) if tr.idx[k] >= len(jobs[k])]
+                cands = [("oob-machine", j, M + rng.randint(0, 2)), ("machine-minus-2", j, -2)]
+                inel = [m for m in range(M) if m not in ms]
+                if inel:
+                    cands.append(("ineligible-machine", j, rng.choice(inel)))
+                    cands.append(("ineligible-machine", j, rng.choice(inel)))
+                if len(ms) > 1:
+                    cands.append(("minus1-flexible", j, -1))
+                if finished:
+                    cands.append(("finished-job", rng.choice(finished), -1))
+                kind, bj, bm = rng.choice(cands)
+                lines += ["eobs", "esched", f"mark injected {kind}", f"estep {bj} {bm}", "eobs", "esched"]
+                kinds.add(kind)
+                n_bad += 1
+                # the next valid step is for another job when there is one
+                others = [r for r in tr.ready() if r[0] != bj]
+                if others and rng.random() < 0.8:
+                    j, p = rng.choice(others)
+                else:
+                    j, p = rng.choice(tr.ready())
+            else:
+                j, p = rng.choice(tr.ready())
+            ms, _ = jobs[j][p]
+            m = -1 if len(ms) == 1 and rng.random() < 0.5 else rng.choice(ms)
+            tr.take(j)
+            n_acc += 1
+            lines.append(f"estep {j} {m}")
+        lines += [f"mark injected finished-job", f"estep {rng.randrange(len(jobs))} -1", "eobs", "esched"]
+        meta = {"family": family, "filter": "none" if f is None else "+".join(f) or "empty-composite", "kind": "env",
+                "flexible": gen.is_flexible(jobs), "accepted": n_acc, "rejected": n_bad + 1,
+                "bad_kinds": sorted(kinds | {"finished-job"}), "filter_style": rng.choice(["callable", "enum", "str"])}
+        return Scenario(lines, meta)
+
+    def env_oracle(self, impl, scenario, index, line, out, ctx):
+        res = []
+        lines = scenario.lines
+        outs = ctx["outs"]
+        if line == "esched" and index >= 5 and lines[index - 3].startswith("mark injected") and \
+                lines[index - 2].startswith("estep"):
+            s_line, s_out = lines[index - 2], outs[index - 2]
+            if s_out != "raise":
+                res.append(("not-rejected", f"invalid step `{s_line}` ({lines[index - 3][14:]}) did not raise"))
+            if lines[index - 5] == "eobs" and lines[index - 4] == "esched":
+                for k in (0, 1):
+                    if outs[index - 5 + k] != outs[index - 1 + k]:
+                        res.append(("state-changed", f"rejected `{s_line}` changed `{lines[index - 1 + k]}`"))
+                        break
+        if index == len(lines) - 1 and lines[-2:] == ["eobs", "esched"] and lines[0] == "new":
+            from impl_ext import ImplEnv
+            clean = ImplEnv(scenario.meta.get("filter_style", "callable"))
+            raised = {i for i, (l, o) in enumerate(zip(lines, outs)) if l.startswith("estep") and o == "raise"}
+            last = {}
+            for i, l in enumerate(lines):
+                if i in raised or l.startswith("mark"):
+                    continue
+                last[l.split()[0]] = clean.exec(l)
+            for key, pos in (("eobs", -2), ("esched", -1)):
+                if last.get(key) != outs[pos]:
+                    res.append(("as-if-never", f"final `{key}` differs from the same episode without the rejected steps: "
+                                f"{outs[pos][:200]} vs {str(last.get(key))[:200]}"))
+        return res
 
     def scenario(self, rng: random.Random, tier) -> Scenario:
         family, jobs = gen.gen_instance(rng, max_jobs=4, max_ops=3 if tier == "quick" else 5)
@@ -82,6 +161,8 @@ class Check(PropertyCheck):
         lines = scenario.lines
         outs = ctx.setdefault("outs", [])
         outs.append(out)
+        if scenario.meta.get("kind") == "env":
+            return self.env_oracle(impl, scenario, index, line, out, ctx)
         # an injected request: 6 probe lines, `mark injected <kind>`, the `disp`, 6 probe lines
         if line == "q unscheduled" and index >= 14 and lines[index - 7].startswith("mark injected") and \
                 lines[index - 6].startswith("disp") and lines[index - 13:index - 7] == lines[index - 5:index + 1]:
